@@ -302,6 +302,8 @@ func vf01TypesNoPadding(h *vfHello) []int {
 	return out
 }
 
+var vf01TicketKey = [32]byte{0xc0, 0x01, 1, 2, 3, 4, 5, 6, 7, 8, 9, 10, 11, 12, 13, 14, 15, 16, 17, 18, 19, 20, 21, 22, 23, 24, 25, 26, 27, 28, 29, 30}
+
 func TestVerifC01WireIsRaw(t *testing.T) {
 	st := vfNewStats(t, "C01")
 	rapid.Check(t, func(rt *rapid.T) {
@@ -319,6 +321,16 @@ func TestVerifC01WireIsRaw(t *testing.T) {
 			spec, meta = vfGenCustomSpec(rt)
 			src = vfClientSrc{Kind: "custom", Name: meta.Mode, ID: HelloCustom, Spec: spec}
 		}
+		if rapid.IntRange(0, 7).Draw(rt, "psk_parrot") == 0 {
+			var psk []vfParrot
+			for _, p := range vfParrots {
+				if vfIsPSKParrot(p) {
+					psk = append(psk, p)
+				}
+			}
+			p := psk[rapid.IntRange(0, len(psk)-1).Draw(rt, "psk_parrot_idx")]
+			src, meta = vfClientSrc{Kind: "parrot", Name: p.Name, ID: p.ID}, nil
+		}
 		sni0 := vfGenDNSName(rt, "sni0")
 		cfg := vfClientConfig(sni0)
 		cfg.InsecureSkipVerify = true // SetSNI changes the name; certificate checks are C14's business
@@ -329,6 +341,22 @@ func TestVerifC01WireIsRaw(t *testing.T) {
 			// a (cold) session cache switches on the session-loading path of BuildHandshakeState
 			cfg.ClientSessionCache = NewLRUClientSessionCache(4)
 			cfg.PreferSkipResumptionOnNilExtension = true // custom specs without session extensions: documented switch
+		}
+		// a WARM cache for the parrots that carry pre_shared_key: an earlier connection of the same fingerprint left a
+		// TLS 1.3 ticket, so the hello under test resumes and its binders are patched in at every (re)build
+		warm := false
+		if withCache && src.Kind == "parrot" && strings.Contains(src.Name, "PSK") && rapid.IntRange(0, 3).Draw(rt, "warm_cache") != 0 {
+			s0 := vfServerConfig("ecdsa", sni0, "public.c01.test")
+			s0.SetSessionTicketKeys([][32]byte{vf01TicketKey})
+			c0 := *cfg
+			c0.Rand = nil
+			p0 := vfNewPair(&c0, src.ID, s0)
+			cerr0, serr0 := p0.Handshake()
+			if cerr0 == nil && serr0 == nil && p0.Echo([]byte("prime"), []byte("PRIME")) == nil {
+				warm = true
+				st.Class("warm-session-cache(psk-parrot)")
+			}
+			p0.Close()
 		}
 		// a real ECH configuration: the hello is then marshalled through the inner/outer construction, at every build
 		withECH := rapid.IntRange(0, 4).Draw(rt, "ech_config") == 0
@@ -426,6 +454,9 @@ func TestVerifC01WireIsRaw(t *testing.T) {
 		// ---- server ----
 		srvKind := []string{"plain13", "plain13", "plain12", "hrr", "hrr", "reject"}[rapid.IntRange(0, 5).Draw(rt, "server")]
 		scfg := vfServerConfig("ecdsa", sni0, "public.c01.test")
+		if warm {
+			scfg.SetSessionTicketKeys([][32]byte{vf01TicketKey})
+		}
 		if withECH {
 			st.Class("client-with-ech-config")
 			if rapid.Bool().Draw(rt, "server_has_ech_key") {
@@ -528,8 +559,21 @@ func TestVerifC01WireIsRaw(t *testing.T) {
 					st.Violation(rt, "%s: padding extension without length functor set to %d bytes by the caller (-1 = switched off), the wire has %d", what, padWant, got)
 				}
 			}
-			if got := vf01TypesNoPadding(h); fmt.Sprint(got) != fmt.Sprint(wantTypes) {
-				st.Violation(rt, "%s: extension list edits not visible: wire %v, expected %v", what, got, wantTypes)
+			got01 := vf01TypesNoPadding(h)
+			want01 := wantTypes
+			if warm {
+				// whether the resuming hello carries pre_shared_key (attached by the build that Handshake performs when
+				// the first build was sessionless) is the session controller's business (C19/C20), not an edit
+				strip := func(l []int) []int {
+					if n := len(l); n > 0 && l[n-1] == 41 {
+						return l[:n-1]
+					}
+					return l
+				}
+				got01, want01 = strip(got01), strip(want01)
+			}
+			if got := got01; fmt.Sprint(got) != fmt.Sprint(want01) {
+				st.Violation(rt, "%s: extension list edits not visible: wire %v, expected %v", what, got, want01)
 			}
 			if m.sni != nil && !(withECH && h.Ext(0xfe0d) != nil) {
 				if name, present := h.SNI(); present && m.sniNone {
@@ -542,7 +586,7 @@ func TestVerifC01WireIsRaw(t *testing.T) {
 			if h.Ext(16) != nil && m.alpn != nil && strings.Join(h.ALPN(), ",") != strings.Join(m.alpn, ",") {
 				st.Violation(rt, "%s: ALPN edit not visible: wire %q, set %q", what, h.ALPN(), m.alpn)
 			}
-			if len(m.kinds) == 0 && !withECH && !bytes.Equal(hellos[0], raw0) { // (with ECH every build seals afresh)
+			if len(m.kinds) == 0 && !withECH && !warm && !bytes.Equal(hellos[0], raw0) { // (with ECH every build seals afresh; a resuming hello carries the ticket age of its build)
 				// no edit: the rebuilt hello is the one the caller inspected
 				st.Violation(rt, "%s: without edits the hello sent differs from the one built and inspected", what)
 			}
